@@ -129,6 +129,10 @@ type vfOutcome struct {
 	fail  bool // how the site documents an ADMITTED call with this outcome is recorded
 	panic bool
 	mk    func(id int64) error
+	// error-value shapes (zz_verif_c01_shapesites_test.go): the key a misclassification is reported
+	// under (C01/zrpc-client/misclassified/status-<Code>/<shape class>), the reference classification
+	// in words, and the shape class
+	key, ref, class string
 }
 
 var vfErrSeq atomic.Int64
@@ -204,6 +208,8 @@ type vfHist struct {
 	legal int64
 	must  int64
 	sig   []any
+	// relabel: when set (shape floods), the key of every illegal rejection
+	relabel string
 }
 
 const (
@@ -378,6 +384,10 @@ func (h *vfHist) step(si int, gap time.Duration, out vfOutcome, ctxMode int, lat
 				c.Viol("C01/identity/zrpc-client/window-shared-across-"+s.label,
 					fmt.Sprintf("call on %s rejected although the window of that target+method holds accepted=%d, non-accepted=%d; only together with the calls on the other target/method (accepted=%d, non-accepted=%d) would a rejection be allowed", s.label, p.A, p.N, up.A, up.N),
 					h.witness("one breaker per cc.Target()+method"))
+			} else if h.relabel != "" {
+				c.Viol(h.relabel,
+					fmt.Sprintf("BreakerInterceptor rejected a call although the window holds accepted=%d, non-accepted=%d: invoker outcomes of this shape are recorded as failures", p.A, p.N),
+					h.witness(fmt.Sprintf("accepted=%d nonaccepted=%d at the rejected (last) call", p.A, p.N)))
 			} else {
 				c.Viol("C01/illegal-reject/zrpc-client/"+p.illegalKey(),
 					fmt.Sprintf("BreakerInterceptor rejected a call although the window holds accepted=%d, non-accepted=%d: %d does not exceed 5 + 10%% of %d", p.A, p.N, p.N, p.A),
@@ -463,6 +473,7 @@ func vfRandom(c *kit.Case, vc *kit.VClock) {
 	pCtx := kit.Choose(r, []float64{0, 0.3, 1})
 	pDone := kit.Choose(r, []float64{0, 0.05, 0.2})
 	pLat := kit.Choose(r, []float64{0, 0.1})
+	pShape := kit.Choose(r, []float64{0, 0.3, 0.6})
 	gapMode := r.Pick(30, 25, 25, 8, 12)
 	steady := time.Duration(r.Range(1, 120)) * time.Millisecond
 	for i := 0; i < L && !c.Violated(); i++ {
@@ -479,12 +490,19 @@ func vfRandom(c *kit.Case, vc *kit.VClock) {
 			out = vfFailOuts[r.Intn(len(vfFailOuts)-1)]
 			if r.Chance(pPanic) {
 				out = vfFailOuts[len(vfFailOuts)-1]
+			} else if r.Chance(pShape) { // a failing status in one of the errors.As shapes
+				out = kit.Choose(r, vfStFailOuts)
 			}
 		} else {
 			out = kit.Choose(r, vfOkOuts)
 			if r.Chance(0.4) {
 				out = vfOkOuts[0]
+			} else if r.Chance(pShape) { // negative controls, non-failing statuses in the same shapes
+				out = kit.Choose(r, vfStOkOuts)
 			}
+		}
+		if out.key != "" {
+			c.Obs("zrpc_client_shape_calls_in_random_histories", 1)
 		}
 		ctxMode := vfCtxNone
 		if r.Chance(pCtx) {
@@ -578,5 +596,13 @@ func TestVerifC01ZC(t *testing.T) {
 	kit.Run(t, "C01", "zrpc-client", kit.N(600, 8000), func(c *kit.Case) { vfRandom(c, vc) })
 	kit.Run(t, "C01", "zrpc-client-effect", kit.N(2*len(vfFailOuts), 20*len(vfFailOuts)), func(c *kit.Case) { vfEffect(c, vc) })
 	kit.Run(t, "C01", "zrpc-client-flood", kit.N(2*len(vfOkOuts), 20*len(vfOkOuts)), func(c *kit.Case) { vfFlood(c, vc) })
+
+	// shapes of status errors (zz_verif_c01_shapesites_test.go): codes.Acceptable classifies by
+	// status.Code(err), i.e. by the status found with errors.As semantics
+	if err := vfStSelfCheck(); err != nil {
+		t.Fatalf("zrpc client status shapes: %v", err)
+	}
+	kit.Run(t, "C01", "zrpc-client-shape-effect", kit.N(2*len(vfStFailOuts), 20*len(vfStFailOuts)), func(c *kit.Case) { vfShapeEffect(c, vc) })
+	kit.Run(t, "C01", "zrpc-client-shape-flood", kit.N(2*len(vfStOkOuts), 20*len(vfStOkOuts)), func(c *kit.Case) { vfShapeFlood(c, vc) })
 	kit.End()
 }
